@@ -1,4 +1,5 @@
 import CMacVerif.Lemmas.AtomicsPool
+import CMacVerif.Lemmas.AtomicsMem
 import CMacVerif.Lemmas.AtomicsQueue
 import CMacVerif.Lemmas.AtomicsCtr
 /-!
@@ -124,6 +125,20 @@ theorem quiescent_count (cfg : Cfg) (hs : 0 < cfg.size) (progs : List (List Cmd)
       sumT_eq_zero decP _ (fun th hth => (hq th hth).2)] at h
   simpa using h
 
+/-- **quiescent_count**, owner form: when every thread is idle, the occupancy counter equals the
+total number of slots in the callers' hands. -/
+theorem quiescent_count_owned (cfg : Cfg) (hs : 0 < cfg.size) (progs : List (List Cmd)) (sched : List Nat)
+    (hidle : ∀ th ∈ (run cfg (init progs) sched).threads, th.pc = .idle) :
+    (run cfg (init progs) sched).mem.taken
+      = (sumT (fun th => th.owned.length) (run cfg (init progs) sched).threads : Int) :=
+  taken_eq_owned cfg _ (poolInv_run cfg hs progs sched) hidle
+
+/-- the occupancy counter never goes below zero in any reachable state: the unsigned
+`_number_taken` of the C++ never wraps (the model uses an `Int`) -/
+theorem number_taken_nonneg (cfg : Cfg) (hs : 0 < cfg.size) (progs : List (List Cmd)) (sched : List Nat) :
+    0 ≤ (run cfg (init progs) sched).mem.taken :=
+  taken_nonneg cfg _ (poolInv_run cfg hs progs sched)
+
 /-- every slot index a thread holds or is about to touch is inside the pool -/
 theorem slot_in_range (cfg : Cfg) (hs : 0 < cfg.size) (progs : List (List Cmd)) (sched : List Nat)
     (th : Thread) (hth : th ∈ (run cfg (init progs) sched).threads) (i : Nat) (hi : i ∈ th.owned) :
@@ -222,5 +237,213 @@ example :
       [0,0,0,0,0,0,0,0, 1,1,1,1,1,1,1,1, 0,0,0,0,0,0,0,0,0,0]
     (s.threads.map (·.popLog)) = [[], [(0, 1)]] ∧ s.mem.items 0 = [0] ∧
     s.mem.locks (.dep 0) = false ∧ s.mem.locks (.dep 1) = true := by decide
+
+/-- a task whose `lock_dependency` succeeded (directly or inside a pop) has every declared lock
+set, held by that thread and by no other thread -/
+theorem task_holds_locks (cfg : Cfg) (progs : List (List Cmd)) (sched : List Nat)
+    (t1 : Nat) (a : Thread) (x : Nat) (L : LockId)
+    (h1 : (run cfg (init progs) sched).threads[t1]? = some a) (hx : x ∈ a.tasks)
+    (hL : 1 ≤ depsHold cfg x L) :
+    (run cfg (init progs) sched).mem.locks L = true ∧ 1 ≤ holdL cfg L a ∧
+    ∀ (t2 : Nat) (b : Thread), (run cfg (init progs) sched).threads[t2]? = some b → t1 ≠ t2 →
+      holdL cfg L b = 0 := by
+  have hle := depsHold_le_tasksHold cfg a.tasks x L hx
+  have ha : 1 ≤ holdL cfg L a := by unfold holdL; omega
+  exact ⟨(lock_held_once cfg progs sched L t1 a h1).2 ha, ha,
+    fun t2 b h2 hne => lock_mutex cfg progs sched L t1 t2 a b h1 h2 hne ha⟩
+
+/-- **pop_holds_locks**: when `get_task` / `try_get_task` is about to return task `x` (it re-read
+`_queue[index]` after `lock_dependency` succeeded — the queue lock's mutual exclusion makes that
+the task whose locks were taken), every lock `x` declares is set and held by the popping thread
+and by nobody else. -/
+theorem pop_holds_locks (cfg : Cfg) (progs : List (List Cmd)) (sched : List Nat)
+    (t1 q x : Nat) (a : Thread) (L : LockId)
+    (h1 : (run cfg (init progs) sched).threads[t1]? = some a)
+    (hpc : a.pc = .popUnlock q (some x)) (hL : 1 ≤ depsHold cfg x L) :
+    (run cfg (init progs) sched).mem.locks L = true ∧ 1 ≤ holdL cfg L a ∧
+    ∀ (t2 : Nat) (b : Thread), (run cfg (init progs) sched).threads[t2]? = some b → t1 ≠ t2 →
+      holdL cfg L b = 0 :=
+  task_holds_locks cfg progs sched t1 a x L h1
+    ((stabInv_run cfg progs sched t1 a h1).2 q x hpc) hL
+
+/-- the plain code of a queue operation runs under the queue lock: two threads are never both
+inside the body of an operation on the same queue (this is what justifies treating the body as
+one transition) -/
+theorem queue_body_exclusive (cfg : Cfg) (progs : List (List Cmd)) (sched : List Nat) (q : Nat)
+    (t1 t2 : Nat) (a b : Thread)
+    (h1 : (run cfg (init progs) sched).threads[t1]? = some a)
+    (h2 : (run cfg (init progs) sched).threads[t2]? = some b) (hne : t1 ≠ t2)
+    (ha : 1 ≤ pcHoldL cfg a.pc (.queue q)) : pcHoldL cfg b.pc (.queue q) = 0 := by
+  have := lock_mutex cfg progs sched (.queue q) t1 t2 a b h1 h2 hne (by unfold holdL; omega)
+  unfold holdL at this; omega
+
+/-- **rollback**: the roll-back step of a failed two-lock attempt (`_dependency[1]` was busy)
+clears the first dependency; afterwards the thread holds exactly what it held before
+`lock_dependency` was called (its user locks, its tasks, and the queue lock if the call came
+from a pop) — no lock of the failed attempt stays held. -/
+theorem rollback (cfg : Cfg) (progs : List (List Cmd)) (sched : List Nat) (tid : Nat) (th : Thread)
+    (c : Ctx) (t : Nat)
+    (hth : (run cfg (init progs) sched).threads[tid]? = some th) (hpc : th.pc = .tlBack c t) :
+    ∃ th', (step cfg (run cfg (init progs) sched) tid).threads[tid]? = some th' ∧
+      th'.held = th.held ∧ th'.tasks = th.tasks ∧ (∀ L, pcHoldL cfg th'.pc L = ctxHold c L) ∧
+      (∀ a, (cfg.deps t).1 = some a →
+        (step cfg (run cfg (init progs) sched) tid).mem.locks (.dep a) = false) := by
+  have hlt : tid < (run cfg (init progs) sched).threads.length := by
+    rcases Nat.lt_or_ge tid (run cfg (init progs) sched).threads.length with h' | h'
+    · exact h'
+    · rw [List.getElem?_eq_none h'] at hth; cases hth
+  rw [step_some cfg _ tid th hth]
+  refine ⟨(exec cfg (run cfg (init progs) sched).mem th).2, by simp [hlt], ?_⟩
+  unfold exec
+  rw [hpc]
+  rcases hd : cfg.deps t with ⟨_ | a, d1⟩ <;> cases c <;>
+    simp [hd, tlFail, ret, pcHoldL, ctxHold]
+
+/-- **pop_available** (solo / obstruction-free form): the thread has just taken the queue lock of
+`get_task` / `try_get_task`; if some queued task has all its declared locks free, then the pop,
+running without interference, returns a task (skipping and rolling back the candidates above it
+that cannot be locked). -/
+theorem pop_available (cfg : Cfg) (s : State) (tid q : Nat) (th : Thread) (x : Nat)
+    (hth : s.threads[tid]? = some th) (hpc : th.pc = .popInit q)
+    (hx : x ∈ s.mem.items q) (hfree : Lockable cfg s.mem.locks x) :
+    Solo cfg tid s (fun s' => ∃ th' y, s'.threads[tid]? = some th' ∧ th'.pc = .popUnlock q (some y)) := by
+  have e1 : exec cfg s.mem th = (s.mem, { th with pc := .popScan q (s.mem.items q).length }) := by
+    unfold exec; rw [hpc]
+  have h1 := solo_exec hth e1
+  apply Solo.next
+  obtain ⟨j, hj, hjx⟩ := List.mem_iff_getElem.mp hx
+  refine pop_progress cfg tid q _ _ _ h1.1 rfl (by rw [h1.2]; exact Nat.le_refl _)
+    ⟨j, x, hj, ?_, by rw [h1.2]; exact hfree⟩
+  rw [h1.2, List.getElem?_eq_getElem hj, hjx]
+
+/-- non-vacuity of `pop_available`: the top entry needs a busy lock, the entry below is free -/
+example :
+    let cfg : Cfg := ⟨1, 200, fun t => if t = 0 then (some 0, none) else (some 1, some 0)⟩
+    let s : State := { mem := { items := fun _ => [0, 1], locks := fun L => L = .dep 1 || L = .queue 0 },
+                       threads := [{ pc := .popInit 0 }] }
+    (run cfg s (List.replicate 8 0)).threads.map (·.pc) = [.popUnlock 0 (some 0)] := by decide
+
+/-- **slot_released**: the CAS of `free_element(i)` clears the flag of slot `i`, and from then on
+(in fact: whenever some slot of the pool is free) a `get_free_element` search loop that runs
+without interference obtains a slot that was free. -/
+theorem slot_released (cfg : Cfg) (s : State) (tid i : Nat) (th : Thread)
+    (hth : s.threads[tid]? = some th) (hpc : th.pc = .freeUnlock i) (hi : i < cfg.size) :
+    (step cfg s tid).mem.flags i = false ∧
+    ∀ (u : Nat) (thu : Thread) (r : Option Nat), (step cfg s tid).threads[u]? = some thu →
+      thu.pc = .getInc r →
+      ∃ n k th', n ≤ 2 * cfg.size ∧
+        (run cfg (step cfg s tid) (List.replicate n u)).threads[u]? = some th' ∧
+        th'.pc = .getCount k r ∧ (step cfg s tid).mem.flags k = false := by
+  have e1 : exec cfg s.mem th = ({ s.mem with flags := upd s.mem.flags i false }, { th with pc := .freeDec i }) := by
+    unfold exec; rw [hpc]
+  have h1 := solo_exec hth e1
+  have hf : (step cfg s tid).mem.flags i = false := by rw [h1.2]; simp
+  refine ⟨hf, fun u thu r hu hpcu => ?_⟩
+  obtain ⟨d, hd, hdi⟩ := exists_offset (step cfg s tid).mem.cur cfg.size i hi
+  obtain ⟨n, k, th', hn, hrun, hpc', hk, _, _⟩ :=
+    get_progress_aux cfg u r d (step cfg s tid) thu hu hpcu (by rw [hdi]; exact hf)
+  exact ⟨n, k, th', by omega, hrun, hpc', hk⟩
+
+/-- **wraparound**: for every value of the cursor (it only ever grows; the index is taken modulo
+the size) and a pool that is full except for slot `j`: the search loop, running without
+interference, obtains exactly slot `j` within `2·size` transitions. -/
+theorem wraparound (cfg : Cfg) (s : State) (u j : Nat) (thu : Thread) (r : Option Nat)
+    (hu : s.threads[u]? = some thu) (hpc : thu.pc = .getInc r) (hj : j < cfg.size)
+    (hfree : s.mem.flags j = false) (hfull : ∀ k, k < cfg.size → k ≠ j → s.mem.flags k = true) :
+    ∃ n th', n ≤ 2 * cfg.size ∧ (run cfg s (List.replicate n u)).threads[u]? = some th' ∧
+      th'.pc = .getCount j r ∧ (run cfg s (List.replicate n u)).mem.flags j = true := by
+  obtain ⟨d, hd, hdi⟩ := exists_offset s.mem.cur cfg.size j hj
+  obtain ⟨n, k, th', hn, hrun, hpc', hk, hk', e, _, hke⟩ :=
+    get_progress_aux cfg u r d s thu hu hpc (by rw [hdi]; exact hfree)
+  have hklt : k < cfg.size := by rw [hke]; exact Nat.mod_lt _ (by omega)
+  have hkj : k = j := by
+    rcases Nat.decEq k j with h | h
+    · have := hfull k hklt h; rw [hk] at this; cases this
+    · exact h
+  subst hkj
+  exact ⟨n, th', by omega, hrun, hpc', hk'⟩
+
+/-- non-vacuity of `wraparound`: size 3, cursor 7 (wrapped twice), only slot 0 free -/
+example :
+    let cfg : Cfg := ⟨3, 200, fun _ => (none, none)⟩
+    let s : State := { mem := { cur := 7, flags := fun i => i != 0 }, threads := [{ pc := .getInc none }] }
+    (run cfg s (List.replicate 6 0)).threads.map (·.pc) = [.getCount 0 none] := by decide
+
+/-! ## MemorySpace::add_photons -/
+
+/-- ghost accounting that holds for every client: packets handed to `add_photons` = packets
+stored in pool buffers + packets in flight (taken from the input buffer, new buffer not yet
+filled) + packets discarded by `free_buffer` + `lost`, where `lost` counts what the copy loop
+would silently drop if the target buffer already held more than `PHOTONBUFFER_SIZE` packets. -/
+theorem photon_accounting (cfg : Cfg) (hs : 0 < cfg.size) (progs : List (List Cmd)) (sched : List Nat) :
+    let s := run cfg (init progs) sched
+    sumN s.mem.count cfg.size + sumT pend s.threads + sumT (·.disc) s.threads + sumT (·.lost) s.threads
+      = sumT (·.inj) s.threads :=
+  photonInv_run cfg hs progs sched
+
+/-- For clients of `MemorySpace` (buffers released through `free_buffer` only, input buffers of at
+most `PHOTONBUFFER_SIZE` packets), in every reachable state: nothing was lost, no buffer holds more
+than `PHOTONBUFFER_SIZE` packets, and a free slot is an empty buffer (the overflow buffer obtained
+inside `add_photons` is empty). -/
+theorem add_photons_no_loss (cfg : Cfg) (hs : 0 < cfg.size) (progs : List (List Cmd))
+    (hms : ∀ p ∈ progs, ∀ c ∈ p, CmdMS cfg.cap c) (sched : List Nat) :
+    let s := run cfg (init progs) sched
+    (∀ th ∈ s.threads, th.lost = 0) ∧ (∀ i, s.mem.count i ≤ cfg.cap) ∧
+    (∀ i, s.mem.flags i = false → s.mem.count i = 0) := by
+  have h := msInv_run cfg hs progs hms sched
+  refine ⟨fun th hth => ?_, h.2.1, h.2.2⟩
+  obtain ⟨k, hk, hke⟩ := List.mem_iff_getElem.mp hth
+  exact (h.1 k th (by rw [List.getElem?_eq_getElem hk, hke])).2.2.2.2.2
+
+/-- **add_photons_conserves**: for clients of `MemorySpace`, under every interleaving: packets
+handed to `add_photons` = packets in the (old and new) pool buffers + packets in flight inside a
+running `add_photons` + packets discarded by `free_buffer`. -/
+theorem add_photons_conserves (cfg : Cfg) (hs : 0 < cfg.size) (progs : List (List Cmd))
+    (hms : ∀ p ∈ progs, ∀ c ∈ p, CmdMS cfg.cap c) (sched : List Nat) :
+    let s := run cfg (init progs) sched
+    sumN s.mem.count cfg.size + sumT pend s.threads + sumT (·.disc) s.threads = sumT (·.inj) s.threads := by
+  have h := photon_accounting cfg hs progs sched
+  have hl := (add_photons_no_loss cfg hs progs hms sched).1
+  simp only at h hl ⊢
+  rw [sumT_eq_zero (·.lost) _ hl] at h
+  omega
+
+/-- one call, sequentially: the fill step moves `min n (cap - size)` packets into the target; if
+that fills it exactly, the rest continues (through `get_free_buffer`) to the new buffer, otherwise
+everything fitted. -/
+theorem add_photons_fill_step (cfg : Cfg) (m : Mem) (th : Thread) (tgt n : Nat)
+    (hpc : th.pc = .apFill tgt n) (hcap : m.count tgt ≤ cfg.cap) :
+    (exec cfg m th).2.lost = th.lost ∧
+    ((exec cfg m th).1.count tgt = m.count tgt + min n (cfg.cap - m.count tgt)) ∧
+    ((exec cfg m th).2.pc = .getCheck (some (n - min n (cfg.cap - m.count tgt))) ∨
+     ((exec cfg m th).2.pc = .idle ∧ min n (cfg.cap - m.count tgt) = n)) := by
+  unfold exec
+  rw [hpc]
+  simp only
+  split
+  · simp
+  · rename_i hne
+    simp only [ret, upd_same, true_and]
+    have : min n (cfg.cap - m.count tgt) = n := by
+      simp only [Nat.min_def] at hne ⊢
+      split at hne <;> rename_i h
+      · simp [h]
+      · omega
+    simp [this]
+
+/-- non-vacuity of the `MemorySpace` discipline hypothesis -/
+example : ∀ p ∈ [[Cmd.getSafe, .addPhotons 0 150, .addPhotons 0 100, .freeBuf 0]], ∀ c ∈ p, CmdMS 200 c := by
+  intro p hp c hc
+  simp only [List.mem_singleton] at hp
+  subst hp
+  simp only [List.mem_cons, List.not_mem_nil, or_false] at hc
+  rcases hc with rfl | rfl | rfl | rfl <;> simp [CmdMS]
+
+/-- non-vacuity: 150 + 100 packets: the target fills up (200), 50 go to a fresh buffer -/
+example :
+    let s := run ⟨3, 200, fun _ => (none, none)⟩
+      (init [[.getSafe, .addPhotons 0 150, .addPhotons 0 100]]) (List.replicate 19 0)
+    (List.range 3).map s.mem.count = [200, 50, 0] ∧ s.threads.map (·.owned) = [[1, 0]] ∧
+    s.threads.map (·.lost) = [0] := by decide
 
 end CMacVerif.Atomics
